@@ -207,11 +207,12 @@ def logical_dump(dbfile) -> dict:
         for t, q in _LOGICAL_QUERIES.items():
             rows = []
             for row in conn.execute(q):
-                row = [_val(v) for v in row]
+                row = list(row)
                 if t in _META_LAST:
                     row[-1] = _meta(row[-1])
                 if t == 'lexicons':
                     row[8] = _meta(row[8])
+                row = [_val(v) for v in row]
                 rows.append(row)
             rows.sort(key=lambda r: json.dumps(r, sort_keys=True, default=str))
             out[t] = rows
